@@ -262,7 +262,9 @@ def run_engine(prop: str, tier: str, lean_modules: List[str], profiles: List[Pro
             v.broke(f"harness no longer compiles against /repo ({prof.name}): {ce[:1500]}")
         for cr in ir.crashes:
             v.broke(f"harness run aborted ({prof.name}): {cr[:3000]}")
-        pstat = {'grammars': len(groups), 'dropped_out_of_fuel': len(bad_g), 'cases': len(cases), 'compile_cpu_s': round(ir.compile_s, 1),
+        wft = {k[2:]: v for k, v in sems.items() if k.startswith('W:')}
+        pstat = {'grammars': len(groups), 'grammars_meeting_theorem_hypotheses_WFT': sum(1 for g, _, _ in groups if wft.get(g.gid) == '1' and g.gid not in bad_g),
+                 'dropped_out_of_fuel': len(bad_g), 'cases': len(cases), 'compile_cpu_s': round(ir.compile_s, 1),
                  'run_s': round(ir.run_s, 1), 'results': {'ok': 0, 'fail': 0, 'exception': 0}, 'kinds': {}}
         for g, roots, meta in groups:
             if g.gid in bad_g:
